@@ -81,7 +81,7 @@ PROPS.update({
                 expect_probes=['nested_invoke_from_callback', 'nested_chain_crosses_sandboxes', 'callback_nesting_depth_3_or_more',
                                'sixty_or_more_simultaneous_registrations', 'F9_unrepresentable_callback_result', 'sandbox_recreated'],
                 assumptions=CB_ASSUME),
-    'C13': dict(level='exploration', worlds=[CB_WORLD, MEM_WORLD], rule=CB_RULE, components=CB_COMPONENTS,
+    'C13': dict(level='exploration', worlds=[CB_WORLD, MEM_WORLD, 'TH_FOR_C13'], rule=CB_RULE + '; in the threads world (C18) a third of the runs also share one sim sandbox between all threads for registration / unregistration of a 3-function pool only, with the model "never two live owners of one function" checked at every accepted registration and "reachable == live owners" at quiescence', components=CB_COMPONENTS,
                 expect_probes=['move_assign_onto_live_owner', 'move_assign_involving_stale_owner', 'self_move_assign', 'owner_moved',
                                'owner_released_after_destroy_sandbox', 'F7_capacity_exhausted', 'duplicate_registration_attempted',
                                'guest_called_vacant_or_foreign_entry', 'F12_destroy_sandbox_with_live_owners'],
@@ -192,3 +192,10 @@ PROPS.update({
                              'thread switches happen only at yield points; races between yield points are left to ThreadSanitizer\'s happens-before analysis, which does not need the accesses to overlap in time',
                              'std::mutex callback_lock has no yield point inside its critical sections, so a parked thread never holds it']),
 })
+
+# C13 also uses the threads world (shared-sandbox registration scenario); patched in here because TH_WORLD is defined later
+for _w in PROPS['C13']['worlds']:
+    pass
+PROPS['C13']['worlds'] = [w for w in PROPS['C13']['worlds'] if w != 'TH_FOR_C13'] + [dict(TH_WORLD, quick=dict(TH_WORLD['quick'], count=30000))]
+PROPS['C13']['expect_probes'] = PROPS['C13']['expect_probes'] + ['registration_on_shared_sandbox', 'shared_sandbox_registrations_from_several_threads']
+PROPS['C13']['assumptions'] = PROPS['C13']['assumptions'] + ['same-instance concurrency is exercised for callback registration/unregistration only (the part of a sandbox object RLBox guards with callback_lock); everything else is single-threaded per instance as RLBOX_SINGLE_THREADED_INVOCATIONS demands']
